@@ -14,6 +14,7 @@ pub mod c13;
 pub mod c14;
 pub mod c15;
 pub mod c17;
+pub mod c18;
 pub mod c19;
 
 pub fn run(prop: &str, ctx: &mut Ctx) -> bool {
@@ -31,6 +32,7 @@ pub fn run(prop: &str, ctx: &mut Ctx) -> bool {
         "C14" => c14::run(ctx),
         "C15" => c15::run(ctx),
         "C17" => c17::run(ctx),
+        "C18" => c18::run(ctx),
         "C19" => c19::run(ctx),
         _ => return false,
     }
